@@ -1256,6 +1256,9 @@ func (x *Exec) selectOp(s *State, in *ssa.Select) {
 			ct := st.Chan.Type().Underlying().(*types.Chan)
 			v := x.freshVal(s, ct.Elem(), fmt.Sprintf("selrecv%d", i))
 			r.L = append(r.L, v.L...)
+			// the value a receive case would deliver is result 1, 2, ... of the select event (in
+			// case order, receive cases only); result 0 is the index of the case that fired
+			ev.Res = append(ev.Res, v)
 		} else {
 			sv := x.val(s, st.Send)
 			ev.Args = append(ev.Args, sv)
